@@ -59,7 +59,7 @@ func runC08(r *R) {
 	}
 
 	// ---- R2
-	r.Rule("C08-R2", "openFile: (readable, writable) per access mode = RDWR→(T,T), RDONLY→(T,F), WRONLY→(F,T); other modes error; O_EXCL on existing ⇒ ErrFileExists; Truncate only if writable and not a directory", 4)
+	r.Rule("C08-R2", "openFile: (readable, writable) per access mode = RDWR→(T,T), RDONLY→(T,F), WRONLY→(F,T); other modes error; O_EXCL on existing ⇒ ErrFileExists; Truncate only if writable and not a directory", 1)
 	if fn := r.NeedFn("C08-R2", "(*"+arv+".fileSystem).openFile"); fn != nil {
 		rdwr, _ := osConst(w, "O_RDWR")
 		rdonly, _ := osConst(w, "O_RDONLY")
@@ -180,7 +180,7 @@ func runC08(r *R) {
 	}
 
 	// ---- R3
-	r.Rule("C08-R3", "file content state (filenode.segments/memsize/repacked, filenode.fileinfo.size) is written only by filenode methods and the flush machinery (dirnode.commitBlock/flush)", 8)
+	r.Rule("C08-R3", "file content state (filenode.segments/memsize/repacked, filenode.fileinfo.size) is written only by filenode methods and the flush machinery (dirnode.commitBlock/flush)", 6)
 	allowed := func(root string) bool {
 		return strings.HasPrefix(root, "(*"+arv+".filenode).") || root == "(*"+arv+".dirnode).commitBlock" || root == "(*"+arv+".dirnode).flush"
 	}
